@@ -127,6 +127,10 @@ class kMinPathErrorCycles(walkmodel.AbstractWalkModelDiGraph):
             - If `elements_to_ignore_percentile` is set and is not in `[0, 100]`.
             - If `elements_to_ignore_percentile` is set together with `elements_to_ignore`.
         """
+        # (one-shot iterables - generators, iterators - are read once, here: the type checks below would use them up and the model would see nothing)
+        elements_to_ignore = list(elements_to_ignore) if elements_to_ignore is not None else elements_to_ignore
+        additional_starts = list(additional_starts) if additional_starts is not None else additional_starts
+        additional_ends = list(additional_ends) if additional_ends is not None else additional_ends
     
         # Handling node-weighted graphs
         self.flow_attr_origin = flow_attr_origin
